@@ -30,9 +30,14 @@ def compile_script(lines):
   return code
 
 
-def make_class(attrs, name='Thing'):
+def make_class(attrs, name='Thing', value_equality=False):
   tsa = seams.mods['thread_safe_attributes']
-  return tsa.MetaThreadSafeAttributes(name, (object,), {'_attributes': list(attrs)})
+  ns = {'_attributes': list(attrs)}
+  if value_equality:
+    # a class whose instances compare (and hash) equal by value: they are still distinct objects
+    ns['__eq__'] = lambda self, other: type(other) is type(self)
+    ns['__hash__'] = lambda self: 12345
+  return tsa.MetaThreadSafeAttributes(name, (object,), ns)
 
 
 def descriptor(cls, attr):
